@@ -11,7 +11,7 @@ RULE = ("complete enumeration: all 256 byte values (decode, encode, injectivity,
         "0..0x10FFFF through str.encode('bk') (table members give their byte, all others raise UnicodeEncodeError with start at "
         "their index), every {encodable,unencodable} pattern of length <= 4 with 3 representatives per class, and at assembly level "
         "'.ascii', '.asciz', 'c and \"cc for each of the 256 table characters (batched, bisected) and '.ascii' / 'c for every BMP "
-        "code point outside the table (run alone; must fail with an error); 5 characters x 5 programs (literal / string, in the main file and in "
+        "code point outside the table (run alone; must fail with an error); '<n>' chunks of '.ascii'/'.asciz' for every byte n are the byte itself (not a character put through the table), and '<cp>' for table members above 255 is refused; 5 characters x 5 programs (literal / string, in the main file and in "
         "an included file) assembled three times in one process under every ordered pair of 4 output charsets; non-trivial = distinct (code point or byte, route) pair")
 ASSUMPTIONS = ["Python's koi8_r codec is the independent KOI8-R source", "pseudo-graphics block 0x7F-0xBF is only required to be a bijection",
                "U+00A4 (currency sign) is accepted as a second spelling of byte 0x24: the implementation's table lists both glyphs for that byte on purpose (the BK-0010 shows the currency sign where ASCII has '$'); the bijection is demanded of the 256 primary characters"]
@@ -191,7 +191,18 @@ def check(case, r, tier):
             items.append((("char2", b), '.word "%sA' % desc, bytes([b, 0x41])))
             items.append((("char2b", b), '.word "A%s' % desc, bytes([0x41, b])))
             items.append((("imm", b), "mov #'%s, r0" % cesc, bytes([0xC0, 0x15, b, 0])))
+            # a '<n>' chunk is the byte n itself - it does not go through the charset (U+00A4 is an alias of '$', chr(n) of a
+            # Cyrillic byte is a Latin-1 letter that is not in the table)
+            items.append((("raw-code", b), ".ascii <%o>" % b, bytes([b])))
+            items.append((("raw-code-mid", b), ".asciz /x/<%d.>%s%s%s" % (b, q, inq, q), b"x" + bytes([b, b]) + b"\x00"))
         batch.run_valid_batch(items, r, ID)
+        if case["lo"] == 0:
+            # '<n>' with the code point of a table member above 255 is not a byte
+            for b in range(256):
+                cp = ord(T[b])
+                if cp > 255:
+                    for text in (".ascii <%d.>\n" % cp, ".ascii /a/<%d.>\n" % cp):
+                        batch.expect_error(text, r, ("raw-code-bad", cp, text), {"kind": "error", "text": text})
         return
     if k == "asm-bad":
         for cp in range(case["lo"], case["hi"]):
